@@ -28,7 +28,9 @@ func runC12(p *core.Program, r *core.Report) {
 	c := rc{p, r}
 	noAnswerBeforeTheScan(c, "gogu.Map", "gogu.ForEach", "gogu.ForEachRight", "gogu.Reduce", "gogu.Reverse", "gogu.Chunk", "gogu.Partition", "gogu.Filter", "gogu.Reject", "gogu.DropWhile", "gogu.DropRightWhile", "gogu.mapByIndex", "gogu.Zip", "gogu.Unzip", "gogu.Merge", "gogu.Shuffle")
 	resultUntouchedAfterTheScan(c, "gogu.Map", "gogu.ForEach", "gogu.ForEachRight", "gogu.Reduce", "gogu.Reverse", "gogu.Chunk", "gogu.Partition", "gogu.Filter", "gogu.Reject", "gogu.DropWhile", "gogu.DropRightWhile", "gogu.mapByIndex", "gogu.Zip", "gogu.Unzip", "gogu.Merge", "gogu.Shuffle")
+	positionBlind(c, "gogu.Map", "gogu.ForEach", "gogu.ForEachRight", "gogu.Reduce", "gogu.Filter", "gogu.Reject", "gogu.Partition", "gogu.GroupBy", "gogu.mapByIndex")
 	hygiene(c, "slice.go", "filter.go", "shuffle.go", "string.go")
+	noSingledOutValue(c, []string{"filter.go", "shuffle.go"}, nil)
 
 	// ---------------- visit once, in order
 	type visitSpec struct {
@@ -539,6 +541,47 @@ func runC12(p *core.Program, r *core.Report) {
 				return ok && isK && k == 0 && bo.Op == token.REM && bo.X == win.Low && bo.Y == ssa.Value(paramByName(fn, "size"))
 			}) || isStrideInduction(win.Low, paramByName(fn, "size"))
 			c.ob("PV3", "gogu.Chunk", "chunks start at multiples of size", p.InstrPos(ap), okM, "a chunk must start where i % size == 0 (or i advances by size)")
+			// nothing else decides whether and how a chunk is taken: every branch the append
+			// hangs on inside the loop compares only the start, size and len(slice)
+			// (start % size == 0, start < len, start+size < len in either polarity)
+			sizeP := ssa.Value(paramByName(fn, "size"))
+			var chunkTerm func(v ssa.Value, d int) bool
+			chunkTerm = func(v ssa.Value, d int) bool {
+				v = path.Strip(v)
+				if v == win.Low || v == sizeP || isLenOfValue(x, v, sl) {
+					return true
+				}
+				if k, isK := path.IntConst(v); isK {
+					return k == 0 || k == 1
+				}
+				if bo, ok := v.(*ssa.BinOp); ok && d < 4 && (bo.Op == token.ADD || bo.Op == token.SUB || bo.Op == token.REM) {
+					return chunkTerm(bo.X, d+1) && chunkTerm(bo.Y, d+1)
+				}
+				return false
+			}
+			okX := true
+			for _, g := range path.Guards(fn, ap.Block()) {
+				if g.Synth || g.Threaded || g.If.Block() == nil || len(path.NaturalLoop(g.If.Block())) > 0 || !path.InCycle(g.If.Block()) {
+					continue
+				}
+				cd, okC := path.CondOf(g.If)
+				if !okC || !chunkTerm(cd.X, 0) || !chunkTerm(cd.Y, 0) {
+					okX = false
+				}
+			}
+			c.ob("PT3", "gogu.Chunk", "chunking decided by start, size and length only", p.InstrPos(ap), okX, "the append hangs on a branch inside the loop that compares something other than the chunk start, size and len(slice): some chunks are cut differently from the others")
+			// the rest is taken open-ended only when no full chunk is left
+			if win.High == nil {
+				okR := guardedBy(fn, ap.Block(), func(cd path.Cond, truth bool) bool {
+					rel := normCmp(cd.Op, truth)
+					isEnd := func(v ssa.Value) bool {
+						bo, ok := path.Strip(v).(*ssa.BinOp)
+						return ok && bo.Op == token.ADD && ((bo.X == win.Low && bo.Y == sizeP) || (bo.Y == win.Low && bo.X == sizeP))
+					}
+					return ((rel == ">=" || rel == ">") && isEnd(cd.X) && isLenOfValue(x, cd.Y, sl)) || ((rel == "<=" || rel == "<") && isEnd(cd.Y) && isLenOfValue(x, cd.X, sl))
+				})
+				c.ob("PT3", "gogu.Chunk", "open-ended chunk only at the end", p.InstrPos(ap), okR, "slice[i:] is appended on a path where i+size >= len(slice) is not established: a chunk longer than size can be produced")
+			}
 			// full window: high = low + size under low+size < len; else open-ended
 			if win.High != nil {
 				hp := x.path(win.High)
